@@ -17,6 +17,8 @@ Z3_TIMEOUT_MS = int(os.environ.get("VERIF_Z3_TIMEOUT_MS", "30000"))
 CVC5_TIMEOUT_S = int(os.environ.get("VERIF_CVC5_TIMEOUT_S", "60"))
 
 STATS = {"z3": 0, "cvc5": 0, "z3_time": 0.0, "cvc5_time": 0.0}
+RECHECK_EVERY = 1  # thorough tier: every n-th z3-discharged VC is re-checked by cvc5 (bulk generators set n > 1 and say so in the evidence)
+_recheck_ctr = [0]
 
 
 def _smt2(assumptions, goal, logic=None):
@@ -61,7 +63,8 @@ def discharge(assumptions, goal, timeout_ms=None, use_cvc5=True, want_model=True
     STATS["z3"] += 1
     STATS["z3_time"] += dt
     if r == z3.unsat:
-        if os.environ.get("VERIF_TIER") == "thorough" and os.environ.get("VERIF_NO_CVC5_RECHECK") != "1":
+        _recheck_ctr[0] += 1
+        if os.environ.get("VERIF_TIER") == "thorough" and os.environ.get("VERIF_NO_CVC5_RECHECK") != "1" and _recheck_ctr[0] % RECHECK_EVERY == 0:
             # thorough tier: every VC discharged by z3 is re-checked by cvc5; a disagreement is reported as undecided, never hidden
             t1 = time.time()
             r2 = cvc5_check(_smt2(assumptions, goal), timeout_s=20)
@@ -199,3 +202,8 @@ def concrete_refute(assumptions, goal_eqs, tries=600, seed=0, rel=1e-6):
         except (NotImplementedError, KeyError, ZeroDivisionError, OverflowError, ValueError):
             return None
     return None
+
+
+def discharge_quantified(assumptions, goal, timeout_ms=20000):
+    """obligations whose assumptions contain quantified axioms (E-matching); z3 in-process first, cvc5 for what it leaves open"""
+    return discharge(assumptions, goal, timeout_ms=timeout_ms)
